@@ -364,3 +364,45 @@ Example C09_nonvacuous_declared_default :
   sparse_col_np (mkdecl None (Some (VInt 0))) None [VInt 1; VInt 0; VNull; VInt 2; VInt 0] None
   = Ok (mkobs [[VInt 1; VInt 0; VInt 2; VInt 0]; [VInt 1; VInt 0; VNull; VInt 2; VInt 0]] [[0; 1; 3; 4]] [DObj; DObj]).
 Proof. vm_compute. reflexivity. Qed.
+
+(* ====================== E. scripts on one column object ====================== *)
+(* State = the stored form; steps: expand / element-wise function on the stored values / copy the object (copy.copy,
+   copy.deepcopy, pickle round trip) and go on with the copy or the original / change length / read an earlier
+   expansion again.  The correspondence runs these scripts on real objects (stream script). *)
+
+(* A copy is an equal, independent object: removing every copy step from a script changes no answer. *)
+Theorem C09_script_copy_erasable :
+  forall (steps : list kstep) (s : stored) (h : list (result (list val * dtype))),
+  script_run s h (filter not_copy steps) = script_run s h steps.
+Proof. exact script_copy_erasable. Qed.
+Print Assumptions C09_script_copy_erasable.
+
+(* Earlier expansions are values: the history only grows, so what was returned as the k-th expansion is read back
+   unchanged whatever was expanded afterwards. *)
+Theorem C09_script_earlier_expansions_stable :
+  forall (k : nat) (h x : list (result (list val * dtype))) (d : result (list val * dtype)),
+  k < length h -> nth k (h ++ x) d = nth k h d.
+Proof. intros k h x d. apply script_reread_stable. Qed.
+Print Assumptions C09_script_earlier_expansions_stable.
+
+(* The scripts generalise the single-step models of Part 3 (the ones every other theorem and stream is about):
+   "build, apply f to the stored values, expand" as a script is the single-step model, including what it raises. *)
+Theorem C09_script_generalises_single_step :
+  (forall l f, script_np (CRle l) (one_fn f) = [mat_only (rle_np l f)]) /\
+  (forall l f, script_np (CDict l) (one_fn f) = [mat_only (dict_np l f)]) /\
+  (forall l d f, script_np (CSparse l d) (one_fn f) = [mat_only (sparse_np l d f)]) /\
+  (forall v n f, script_np (CConst v n) (one_fn f) = [mat_only (const_np v n f)]) /\
+  (forall b cfg n, script_np (CFunc b cfg n) [KMat] = [mat_only (func_np b cfg n)]).
+Proof.
+  split; [exact script_rle_single|]. split; [exact script_dict_single|]. split; [exact script_sparse_single|].
+  split; [exact script_const_single | exact script_func_single].
+Qed.
+Print Assumptions C09_script_generalises_single_step.
+
+(* non-vacuity: expand, double in place, copy, expand the copy, read the first expansion again *)
+Example C09_nonvacuous_script :
+  script_np (CRle [VInt 1; VInt 1; VInt 2]) [KMat; KFn Mul2; KCopy; KMat; KReread 0]
+  = [Ok ([VInt 1; VInt 1; VInt 2], DInt); Ok ([VInt 2; VInt 2; VInt 4], DInt); Ok ([VInt 1; VInt 1; VInt 2], DInt)] /\
+  script_np (CConst (VInt 3) 2) [KMat; KFn Mul2; KMat; KReread 0; KLen 3; KCopy; KMat]
+  = [Ok ([VInt 3; VInt 3], DInt); Ok ([VInt 6; VInt 6], DInt); Ok ([VInt 3; VInt 3], DInt); Ok ([VInt 6; VInt 6; VInt 6], DInt)].
+Proof. split; vm_compute; reflexivity. Qed.
